@@ -994,6 +994,11 @@ func (ex *Exec) callModular(st *State, fr *Frame, callee *ssa.Function, ct *Func
 		res = append(res, v)
 	}
 	for _, en := range ct.Ensures {
+		if hasProp(en.Props, "private") {
+			// proved for the callee, deliberately not handed to callers (keeps
+			// quantified layout facts out of their queries)
+			continue
+		}
 		// post-conditions that talk about the callee's own locals or about the
 		// state at its Lock() are internal to its proof: a caller learns nothing
 		// from them (not assuming a clause is sound)
